@@ -26,10 +26,14 @@ RULE = ("(i) direct drive of a real REPEX_state.inf_retis and of the cached "
 ASSUMPTIONS = [
     "reachable family: one [0-] row (1,0,..,0), plus rows with weight >0 "
     "exactly up to the path's reach, ghost slot always locked",
-    "random_prob (blocks > 12, unequal weights) is a Monte Carlo estimate by "
-    "design; statistical tolerance 0.05 there",
+    "for an irreducible block of more than 12 idle ensembles with unequal "
+    "weights the program uses a Monte Carlo estimate (random_prob): by the "
+    "letter of the property a violation, recorded as known finding C02-F26 "
+    "(re-observed by a direct probe in every run); everything else must be "
+    "exact to 1e-9",
 ]
-MUST_REACH = ["direct_inf_retis", "inf_retis", "prob_property"]
+MUST_REACH = ["direct_inf_retis", "inf_retis", "prob_property",
+              "mc_branch_probe"]
 JOB_TIMEOUT = 1700
 
 
@@ -51,7 +55,60 @@ def plan(tier, seed):
                      "big": tier == "thorough" and j % 20 == 0})
     jobs += F.plan_jobs(tier, seed, "C02", quick_jobs=12, thorough_jobs=160,
                         cases_per_job=4)
+    # direct probe of the Monte-Carlo branch (known finding C02-F26): one
+    # irreducible block of 13-14 idle ensembles, three entries of the exact
+    # reference
+    for j in range(2 if tier == "quick" else 8):
+        jobs.append({"kind": "mcprobe", "seed": rng.randrange(2 ** 31),
+                     "hashseed": 0})
     return jobs
+
+
+def _mcprobe(job):
+    import numpy as np
+    from vf.oracles.permanent import perm_dp, minor
+    rng = np.random.default_rng(job["seed"])
+    rec = _Rec()
+    n = int(rng.integers(13, 15))
+    st = _mk_state(n)
+    # every path reaches the top: one irreducible block of n; unequal
+    # weights in the wire-fencing columns
+    wf = rng.random(n) < 0.6
+    wf[0] = True
+    rows = [[float(rng.integers(1, 40)) if wf[j] else 1.0 for j in range(n)]
+            for _ in range(n)]
+    w = _matrix(n, rows)
+    locks = np.zeros(n + 2)
+    locks[-1] = 1
+    locks[0] = 1          # [0-] busy: the idle block is the n plus paths
+    before = st._random_count
+    out = np.asarray(st.inf_retis(w.copy(), locks.copy()), dtype=float)
+    rec.reached["direct_inf_retis"] = 1
+    rec.reached["mc_branch_probe"] = 1
+    sub = [[int(x) for x in r] for r in w[1:n + 1, 1:n + 1].tolist()]
+    tot = perm_dp(sub)
+    errs = []
+    for (i, j) in [(0, 0), (n // 2, n // 3), (n - 1, n - 1)]:
+        ref = sub[i][j] * perm_dp(minor(sub, i, j)) / tot
+        errs.append(abs(float(out[i + 1, j + 1]) - float(ref)))
+    called = st._random_count > before
+    rec.ev["mc_probe_random_prob_called" if called else
+           "mc_probe_exact_path_taken"] = 1
+    err = max(errs)
+    if err > 1e-9:
+        ok = called and err <= 0.25 and \
+            abs(out[1:n + 1, 1:n + 1].sum(0) - 1).max() <= 1e-6
+        rec.v.append({
+            "mech": "P-is-a-monte-carlo-estimate-for-a-block-over-12" if ok
+            else "P-differs-from-permanent-ratio",
+            "where": "REPEX_state.random_prob" if ok else None,
+            "what": f"one irreducible block of {n} idle ensembles, unequal "
+                    f"weights: max deviation of three probed entries from "
+                    f"the exact permanent ratio = {err:.3g} (random_prob "
+                    f"called: {called})", "W": w.tolist()})
+    rec.sigs.add(f"mcprobe-{job['seed']}")
+    rec.ev["exact_matrices"] = 0
+    return rec
 
 
 def _mk_state(n_plus):
@@ -143,7 +200,7 @@ def _check(rec, st, w, locks, tag):
     if len(idle) > 12:
         rec.ev["matrices_with_more_than_12_idle"] = \
             rec.ev.get("matrices_with_more_than_12_idle", 0) + 1
-    tol = 0.05 if mc else 1e-9
+    tol = 0.25 if mc else 1e-9
     key = "mc_matrices" if mc else "exact_matrices"
     rec.ev[key] = rec.ev.get(key, 0) + 1
     if len(idle) >= 2:
@@ -157,7 +214,19 @@ def _check(rec, st, w, locks, tag):
                       "W": w.tolist(), "locks": locks.tolist(),
                       "P": out.tolist()})
     err = float(np.max(np.abs(got - ref))) if got.size else 0.0
-    if not np.all(np.isfinite(got)) or err > tol:
+    if mc and np.all(np.isfinite(got)) and 1e-9 < err <= 0.25:
+        # by the letter of the property this is a violation: the program
+        # estimates P by Monte Carlo for a block of more than 12 ensembles
+        # (recorded as a known finding; anything else stays a violation)
+        if rec.ev.get("mc_known_witnesses", 0) < 3:
+            rec.v.append({"mech": "P-is-a-monte-carlo-estimate-for-a-block-"
+                                  "over-12",
+                          "where": "REPEX_state.random_prob",
+                          "what": f"{tag}: block sizes {sizes}, random_prob "
+                                  f"called, max|P-ref|={err:.3g}",
+                          "W": w.tolist(), "locks": locks.tolist()})
+        rec.ev["mc_known_witnesses"] = rec.ev.get("mc_known_witnesses", 0) + 1
+    elif not np.all(np.isfinite(got)) or err > tol:
         rec.v.append({"mech": "P-differs-from-permanent-ratio",
                       "what": f"{tag}: max|P-ref|={err:.3g} (tol {tol})",
                       "W": w.tolist(), "locks": locks.tolist(),
@@ -166,8 +235,8 @@ def _check(rec, st, w, locks, tag):
         rec.v.append({"mech": "P-nonzero-where-W-zero", "what": tag,
                       "W": w.tolist(), "locks": locks.tolist(),
                       "P": out.tolist()})
-    if got.size and not (np.max(np.abs(got.sum(0) - 1)) <= max(tol, 1e-9) and
-                         np.max(np.abs(got.sum(1) - 1)) <= max(tol, 1e-9)):
+    if got.size and not (np.max(np.abs(got.sum(0) - 1)) <= 1e-6 and
+                         np.max(np.abs(got.sum(1) - 1)) <= 1e-6):
         rec.v.append({"mech": "P-not-doubly-stochastic", "what": tag,
                       "W": w.tolist(), "locks": locks.tolist(),
                       "P": out.tolist()})
@@ -311,7 +380,8 @@ def _finish(rig, spec, mons, cdir, info):
 def work(job, scratch):
     if job["kind"] == "rig":
         return F.generic_work(job, scratch, _mons, _nontrivial, _finish)
-    rec = _exh(job) if job["kind"] == "exh" else _rand(job)
+    rec = _exh(job) if job["kind"] == "exh" else (
+        _mcprobe(job) if job["kind"] == "mcprobe" else _rand(job))
     n = sum(v for k, v in rec.ev.items() if k.endswith("_matrices"))
     return {"n": n, "sigs": [str(s) for s in rec.sigs], "events": rec.ev,
             "violations": rec.v[:40], "samples": rec.samples,
